@@ -268,3 +268,26 @@ def resolved_types(chk, ctx, rule, module, want: dict) -> None:
     got = {k: mi.imports.get(k) for k in want}
     chk.ob(rule, f'{module}:types', got == want, f'pokerkit/{module}.py', 'the type names of the dispatch resolve to the abstract types they are named after',
            got={k: v for k, v in got.items() if v != want[k]} or 'all', want=want)
+
+
+class StreetColumn:
+    """the variant table of C11 (evaluated constructor chains of the predefined games), read for one column of the streets"""
+
+    def __init__(self, chk, rule, suffix, col, detail):
+        self.chk, self.rule, self.suffix, self.col, self.detail = chk, rule, suffix, col, detail
+
+    def ob(self, rule, construct, ok, loc, detail='', got=None, want=None, **k):
+        if rule == 'C11.table' and construct.endswith(':streets') and isinstance(got, list) and isinstance(want, list):
+            g = [s[self.col] if isinstance(s, tuple) and len(s) > self.col else s for s in got]
+            w = [s[self.col] for s in want]
+            return self.chk.ob(self.rule, construct[:-len(':streets')] + ':' + self.suffix, g == w, loc, self.detail, got=g, want=w)
+        return True
+
+    def floor(self, rule, n):
+        return None
+
+    def note(self, *a, **k):
+        return None
+
+    def __getattr__(self, name):
+        return getattr(self.chk, name)
